@@ -17,6 +17,7 @@
 //
 // batch protocol: PARAM(0) = number of scenarios; per scenario: length, then
 //   T, NC, NC x (from, to, d), H, H x (op, c, sign)     op: 0 assume(lit_c / !lit_c)  1 pop  2 assert at root (unit clause + propagate)  3 check({lit})
+//                                                       4 + 8*c2 + 4... : see below: op 4 = root clause (sign ? lit_c : !lit_c) | lit_c2 / !lit_c2 with c2, sign2 packed in `sign`: sign = s1 + 2*s2 + 4*c2
 #include "sat_core.h"
 #include "clause.h"
 #ifdef RDL
@@ -35,6 +36,8 @@ using namespace smt;
 static int x[MAXT]; // THE symbolic assignment of the time points (x[0] = 0 is the origin)
 
 struct cn { int from, to, d; size_t litx; };
+static const void *problem_cl[8]; static int n_problem; // clauses added by the scenario itself (premises, not explanations)
+static bool is_problem(const void *c) { for (int i = 0; i < n_problem; i++) if (problem_cl[i] == c) return true; return false; }
 static cn cs[MAXCN];
 static int ncs;
 static int T;
@@ -161,12 +164,15 @@ static void check_state(sat_core &s, TH &th)
   }
   // (L) and (E)
   bool root_ok = x[0] == 0; // x-induced assignment satisfies every clause and root assignment of the SAT core
+  bool xr = x_sat_assigned(s, true); // conflict analysis drops root-level literals: clauses are valid modulo the root assignments
+  for (auto c : s.constrs)
+    if (is_problem(c)) { clause *k = static_cast<clause *>(c); bool sat = false; for (auto &l : k->lits) { bool kn; sat = sat | aval(l, kn); } xr = xr & sat; } // ... and modulo the problem's own clauses
   for (auto c : s.constrs)
   {
     clause *k = static_cast<clause *>(c);
     bool sat = false, all_known = true;
     for (auto &l : k->lits) { bool kn; bool v = aval(l, kn); all_known = all_known && kn; sat = sat | v; }
-    CHECK(!all_known || x[0] != 0 || sat, "(L) every stored clause / explanation is valid under the meaning of its constraint literals");
+    if (!is_problem(c)) CHECK(!all_known || !xr || sat, "(L) every stored clause / explanation is valid under the meaning of its constraint literals (modulo root-level assignments)");
     root_ok = root_ok & sat;
   }
   for (size_t v = 1; v < s.assigns.size(); v++)
@@ -208,7 +214,7 @@ __attribute__((noinline)) static void scenario()
   var tp[MAXT];
   tp[0] = 0;
   for (int i = 1; i <= T; i++) tp[i] = th.new_var();
-  ncs = 0;
+  ncs = 0; n_problem = 0;
   for (int c = 0; c < NC; c++)
   {
     cs[ncs].from = rd_(); cs[ncs].to = rd_(); cs[ncs].d = rd_();
@@ -225,8 +231,33 @@ __attribute__((noinline)) static void scenario()
   const int H = rd_();
   for (int h = 0; h < H; h++)
   {
-    const int op = rd_(), ci = rd_(), sg = rd_();
+    const int op = rd_(), ci = rd_(), sgp = rd_();
     if (!alive) continue;
+    if (op == 4)
+    { // binary clause between two constraint literals, added at root level (lets ONE decision assert several constraints)
+      const int s1 = sgp & 1, s2 = (sgp >> 1) & 1, c2 = sgp >> 2;
+      lit l1 = mklit(cs[ci].litx), l2 = mklit(cs[c2].litx);
+      if (!s1) l1 = !l1;
+      if (!s2) l2 = !l2;
+      if (!s.root_level() || !s.prop_q.empty()) continue;
+      const size_t ncl0 = s.constrs.size();
+      if (!s.new_clause({l1, l2}) || !s.propagate())
+      { // refused: no x may satisfy the root constraints together with this clause
+        bool k1, k2; const bool v1 = aval(l1, k1), v2 = aval(l2, k2);
+        bool root_ok = x[0] == 0 && (v1 || v2);
+        for (auto c : s.constrs) { clause *k = static_cast<clause *>(c); bool sat = false; for (auto &l : k->lits) { bool kn; sat = sat | aval(l, kn); } root_ok = root_ok & sat; }
+        root_ok = root_ok & x_sat_assigned(s, true);
+        CHECK(!root_ok, "(C) a clause is refused only if no assignment satisfies the root-level constraints together with it");
+        alive = false;
+      }
+      else
+      {
+        if (s.constrs.size() > ncl0 && n_problem < 8) problem_cl[n_problem++] = s.constrs.back();
+        check_state(s, th);
+      }
+      continue;
+    }
+    const int sg = sgp;
     lit l = mklit(cs[ci].litx);
     if (sg == 0) l = !l;
     const bool constant = variable(l) == FALSE_var;
